@@ -1,7 +1,7 @@
 (* C18 — SCAN through the proxy visits every node once and terminates.
    Only statements; every proof is `exact <lemma from Proofs/>`. *)
 From Coq Require Import List NArith.
-From Sam Require Import Model.Bytes Model.Dispatch Model.Scan Proofs.ScanProofs.
+From Sam Require Import Model.Bytes Model.Dispatch Model.Scan Proofs.ScanProofs Lib.GoLib Gen.Funcs Proofs.GenCursorProofs.
 Import ListNotations.
 Open Scope N_scope.
 
@@ -9,6 +9,14 @@ Open Scope N_scope.
 Theorem C18_cursor : forall idx n, idx < 65536 -> n < two48 -> parse_cursor (gen_cursor idx n) = (idx, n).
 Proof. exact cursor_roundtrip. Qed.
 Print Assumptions C18_cursor.
+
+(* the Go functions themselves (parseCursor, genCursor of proc/redis/request.go, translated on every run into
+   Gen/Funcs.v): they are the model's functions, and the round trip holds of them *)
+Theorem C18_translated_code : forall c idx n, parseCursor_go c = parse_cursor c /\
+  (idx < 2 ^ 64 -> genCursor_go idx n = gen_cursor idx n) /\
+  (idx < 65536 -> n < two48 -> parseCursor_go (genCursor_go idx n) = (idx, n)).
+Proof. exact cursor_go_all. Qed.
+Print Assumptions C18_translated_code.
 
 (* a cursor past the last node yields the terminating reply (cursor 0, no keys), whatever its value *)
 Theorem C18_past_end : forall nodes c, lenN nodes <= fst (parse_cursor c) -> client_step nodes c = (0, [], None).
